@@ -447,11 +447,32 @@ class Facts:
         self.traits = {}
         self.crates = {}
         files = sorted(glob.glob(os.path.join(directory, '*.jsonl')))
-        for f in files:
+        # parsed-JSON cache (marshal is several times faster than json for these files)
+        import marshal
+        cache = os.path.join(directory, 'parsed.marshal')
+        parsed = None
+        if os.path.exists(cache):
+            try:
+                with open(cache, 'rb') as fh:
+                    parsed = marshal.load(fh)
+            except Exception:
+                parsed = None
+        if parsed is None:
+            parsed = []
+            for f in files:
+                with open(f) as fh:
+                    parsed.append([json.loads(line) for line in fh])
+            try:
+                tmp = cache + '.%d' % os.getpid()
+                with open(tmp, 'wb') as fh:
+                    marshal.dump(parsed, fh)
+                os.rename(tmp, cache)
+            except Exception:
+                pass
+        for lines in parsed:
             crate = None
-            with open(f) as fh:
-                for line in fh:
-                    d = json.loads(line)
+            if True:
+                for d in lines:
                     k = d['k']
                     if k == 'crate':
                         crate = d['name'] + ':' + d['tag']
@@ -471,6 +492,37 @@ class Facts:
                         self.traits[strip_generics(d['q'])] = d
 
     # lookup helpers ------------------------------------------------------------------
+    def callers_of(self, *names):
+        """functions (non-test crates) that contain a call whose declared or resolved callee is one
+        of `names` (normalised).  Built once from the raw facts, without materialising MIR objects."""
+        if not hasattr(self, '_call_index'):
+            memo = {}
+            idx = {}
+            for f in self.fns_all:
+                for b in f._blocks_raw:
+                    t = b['term']
+                    if t.get('t') != 'call' or b.get('cleanup'):
+                        continue
+                    for k in ('callee', 'res'):
+                        v = t.get(k)
+                        if v is None:
+                            continue
+                        n = memo.get(v)
+                        if n is None:
+                            n = strip_generics(v)
+                            memo[v] = n
+                        idx.setdefault(n, set()).add(f)
+            self._call_index = idx
+        out = []
+        seen = set()
+        for n in names:
+            for f in self._call_index.get(n, ()):
+                if id(f) not in seen:
+                    seen.add(id(f))
+                    out.append(f)
+        out.sort(key=lambda f: f.nq)
+        return out
+
     def fn(self, nq):
         return self.fns.get(nq)
 
